@@ -130,6 +130,8 @@ pub struct Dfs {
     pub bound: usize,
     started: bool,
     pub exhausted: bool,
+    /// steps that are never varied (drift-directed exploration starts below a given prefix)
+    fixed: Vec<usize>,
 }
 
 fn cost(cont: Option<usize>, t: usize) -> usize {
@@ -141,14 +143,18 @@ fn cost(cont: Option<usize>, t: usize) -> usize {
 
 impl Dfs {
     pub fn new(bound: usize) -> Dfs {
-        Dfs { frames: Vec::new(), bound, started: false, exhausted: false }
+        Dfs { frames: Vec::new(), bound, started: false, exhausted: false, fixed: Vec::new() }
+    }
+
+    pub fn with_fixed(bound: usize, fixed: Vec<usize>) -> Dfs {
+        Dfs { frames: Vec::new(), bound, started: false, exhausted: false, fixed }
     }
 
     /// The prefix to force on the next run; None when the enumeration is complete
     pub fn next_prefix(&mut self) -> Option<Vec<usize>> {
         if !self.started {
             self.started = true;
-            return Some(Vec::new());
+            return Some(self.fixed.clone());
         }
         while let Some(f) = self.frames.last_mut() {
             if let Some(a) = f.alts.pop() {
@@ -176,8 +182,13 @@ impl Dfs {
             Some(f) => f.pre_before + cost(f.cont, f.chosen),
             None => 0,
         };
-        for s in steps.iter().skip(have) {
+        for (i, s) in steps.iter().enumerate().skip(have) {
             let mut alts = Vec::new();
+            if i < self.fixed.len() {
+                // inside the fixed prefix: no alternatives, no preemption accounting
+                self.frames.push(Frame { chosen: s.chosen, alts, cont: s.cont, pre_before: 0 });
+                continue;
+            }
             for &t in &s.enabled {
                 if t != s.chosen && Some(t) != s.spin && pre + cost(s.cont, t) <= self.bound {
                     alts.push(t);
